@@ -5,6 +5,7 @@ import (
 	"fmt"
 	"math"
 	"math/rand"
+	"regexp"
 	"strconv"
 	"strings"
 
@@ -36,12 +37,25 @@ func wktVal(id int) float64 {
 	return wktVals[((id+int(seed))%n+n)%n]
 }
 
+// caseVals, when non-nil, is the per-case table of values outside the palette (corpus strings harvested from the
+// library's own tests): such a value gets the identifier 100 + its index, in order of first appearance.
+var caseVals *[]float64
+
 func wktID(f float64) int {
 	n := len(wktVals)
 	for i := 0; i <= n; i++ {
 		if math.Float64bits(wktVal(i)) == math.Float64bits(f) {
 			return i
 		}
+	}
+	if caseVals != nil {
+		for i, v := range *caseVals {
+			if math.Float64bits(v) == math.Float64bits(f) {
+				return 100 + i
+			}
+		}
+		*caseVals = append(*caseVals, f)
+		return 100 + len(*caseVals) - 1
 	}
 	return -2
 }
@@ -242,6 +256,9 @@ func parseWKT(text string) map[string]any {
 	ltoks := []string{}
 	events := []any{}
 	wkt.VerifHook = func(ev, arg string, ok bool, stack []wkt.VerifFrame) {
+		if ev == "begin" {
+			return
+		}
 		if ev == "tok" {
 			switch {
 			case arg == "EOF" || arg == "(" || arg == ")" || arg == "," || arg == "NUM" || arg == "LEXERR" || arg == "EMPTY":
@@ -357,6 +374,10 @@ type wktCase struct {
 	Plain bool   `json:"plain"`
 	Text  string `json:"text"` // when set (arbitrary strings), toks are ignored
 	Weak  bool   `json:"weak"` // not a grammatical string: only verdict / totality are compared
+	// Corpus: Text is a string harvested from the library's own tests; it is tokenised by the harness's own
+	// tokenizer (values outside the palette get per-case identifiers) so that the model decides it like an
+	// enumerated string. If the tokenizer meets a word it does not know, the real lexer's tokens are used (weak).
+	Corpus bool `json:"corpus"`
 }
 
 func wktHandler(raw json.RawMessage) map[string]any {
@@ -365,6 +386,25 @@ func wktHandler(raw json.RawMessage) map[string]any {
 	text := c.Text
 	if text == "" {
 		text = renderWKT(c.Toks, r, c.Plain)
+	}
+	if c.Corpus {
+		tab := []float64{}
+		caseVals = &tab
+		defer func() { caseVals = nil }()
+		known := true
+		own := append(tokenizeWKT(text), []any{"EOF"})
+		for _, t := range own {
+			if k := t.([]any)[0].(string); strings.HasPrefix(k, "WORD:") {
+				known = false
+			}
+		}
+		if known {
+			b, _ := json.Marshal(own)
+			c.Toks = dec[[]wtok](b)
+			c.Text = ""
+		} else {
+			c.Weak = true
+		}
 	}
 	obs := parseWKT(text)
 	// intended token kinds, for comparison with what the real lexer produced
@@ -473,6 +513,11 @@ func buildWKTGeom(g wktG) geom.T {
 	panic("harness: buildWKTGeom " + g.T)
 }
 
+// numbers of the standard grammar as the model understands it: optional minus sign (the library, like PostGIS, rejects a
+// leading plus), digits with an optional fraction, optional exponent. Anything else ParseFloat might take (hex floats,
+// Inf, NaN, underscores) is a word outside the grammar.
+var wktNumRe = regexp.MustCompile(`^-?([0-9]+\.?[0-9]*|\.[0-9]+)([eE][+-]?[0-9]+)?$`)
+
 // tokenizeWKT is the harness's own small WKT tokenizer (independent of lex.go): words, numbers, punctuation.
 // A word is a type name optionally followed (after white space) by a separate Z / M / ZM word.
 func tokenizeWKT(text string) []any {
@@ -505,7 +550,7 @@ func tokenizeWKT(text string) []any {
 	}
 	for k := 0; k < len(words); k++ {
 		w := strings.ToUpper(words[k])
-		if f, err := strconv.ParseFloat(words[k], 64); err == nil && w != "INF" && w != "NAN" && w != "INFINITY" {
+		if f, err := strconv.ParseFloat(words[k], 64); err == nil && wktNumRe.MatchString(words[k]) {
 			run = append(run, wktID(f))
 			continue
 		}
